@@ -1592,8 +1592,14 @@ impl DnsOutPacket {
 
         // Write each label
         for (i, label) in labels.iter().enumerate() {
-            // Build the remaining name for compression (with dots as separators)
-            let remaining: String = labels[i..].join(".");
+            // Build the remaining name for compression (with dots as separators).
+            // Labels are escaped again so that a dot inside a label cannot be
+            // confused with a label separator.
+            let remaining: String = labels[i..]
+                .iter()
+                .map(|label| label.replace('\\', "\\\\").replace('.', "\\."))
+                .collect::<Vec<_>>()
+                .join(".");
 
             // Check if we can use compression for the remaining part
             const POINTER_MASK: u16 = 0xC000;
